@@ -594,3 +594,38 @@ def fold_parser(m: Model, lexinfo, notation: str, deep=False):
                     continue
             results.append((True, 'ok', case, f'{kind}'))
     return results, sorted(consulted), len(inputs)
+
+
+def fold_roundtrip(m: Model, lexinfo, deep=False):
+    """C12: every well-formed Polish string of a structure corpus (what the Polish writer emits, by C12.R1/R3) goes through the
+    folded parser and must come back as the structure an independent reader of the grammar gives."""
+    consulted = set()
+    make, L, E, table, Marking = build(m, 'polish', lexinfo, consulted)
+    PE = E['ParseError']
+    corpus = polish_sentences(table, 2 if deep else 1)
+    # quantifier scoping: the same variable in disjoint scopes, nested different variables, subscripted variables
+    q1 = ['VxFx', 'SxFx', 'VxGxm', 'SyGmy', 'Vx1Fx1', 'VxSyGxy', 'SxVyGyx', 'VxNFx', 'VxKFxGxm']
+    corpus += q1
+    for a, b in itertools.product(q1[:7], repeat=2):
+        corpus += ['K' + a + b, 'C' + a + 'N' + b]
+    corpus += ['KKVxFxSxFxVxGxm', 'VxKFxSyGxy', 'KVxSyGxyVySxGxy', 'NKVxFxNVxFx', 'VxCFxSyKGxyVzGyz']
+    corpus = list(dict.fromkeys(corpus))
+    declared = [L.Predicate(0, 0, 1)]
+    results = []
+    for text in corpus:
+        try:
+            want = reference_polish(L, table, Marking, text, declared)
+        except (Reject, ValueError, TypeError, KeyError):
+            continue
+        parser = make(Store(declared))
+        try:
+            got = ('ok', parser(text))
+        except PE as e:
+            got = ('error', f'{type(e).__name__}: {e}')
+        except Raised as e:
+            got = ('error', f'Raised {e.text}')
+        except Exception as e:        # noqa: BLE001
+            got = ('error', f'{type(e).__name__}: {e}')
+        ok = got == ('ok', want)
+        results.append((ok, text, f'the Polish rendering {text!r} of {want!r} parses to {got[1]!r}' if not ok else 'ok'))
+    return results, sorted(consulted)
